@@ -266,6 +266,7 @@ class Model:
         self.root_of = {}  # position -> index of root field (mutation seriality)
         self.partial = {}  # list position whose source fails -> items completed before the failure
         self.no_invoke = set()
+        self.default_paths = set()  # positions served by the default resolver
         root_type = self.schema.get_root_type(op.operation)
         fields = self.collect(root_type, [op.selection_set])
         self._root_index = None
@@ -277,6 +278,7 @@ class Model:
                           self.order, self.root_of, self.variables)
         res.partial = self.partial
         res.no_invoke = self.no_invoke
+        res.default_paths = self.default_paths
         return res
 
     # CollectFields with one visited set over the merged selection sets
@@ -352,6 +354,7 @@ class Model:
             # no resolver of ours: the value is whatever the source mapping holds under the
             # field name (absent = null), no arguments, nothing to invoke
             self.no_invoke.add(path)
+            self.default_paths.add(path)
             _kind, value = self.data_fn.default_entry(t, obj["__oid"], nodes[0].name.value)
             return self.complete_position(t, value, path, nodes)
         fp = self.planner.field(path, t)
